@@ -122,18 +122,34 @@ def _symbolic_comp(ex, st, e, kind, g, it):
     if kind == "dict":
         raise _U("dict comprehension over a symbolic sequence", e)
     s1.assume(cond)
+    npc1 = len(s1.decisions)
     ov = ex.eval(e.elt, s1)
-    if len(ov) != 1 or ov[0].kind != "val":
-        raise _U("comprehension body forks or raises on a symbolic element", e)
-    if any(not (k in heap0 and heap0[k].eq(a)) for k, a in s1.heap.items() if k in heap0) :
-        raise _U("comprehension body writes the heap", e)
-    val = ov[0].val
-    # side conditions the body relied on (safety obligations were emitted in s1 under i's range)
-    extra = s1.pc[npc:]
-    t = ty.type_of(ex.to_storable(val))
-    if t is None:
-        raise _U(f"comprehension element of unknown sort: {val!r}", e)
-    comps = ty.pack(t, ex.to_storable(val))
+    if any(o.kind != "val" for o in ov) or not ov:
+        raise _U("comprehension body raises on a symbolic element", e)
+    for o in ov:
+        if any(not (k in heap0 and heap0[k].eq(a)) for k, a in o.st.heap.items() if k in heap0):
+            raise _U("comprehension body writes the heap", e)
+    vals = [ex.to_storable(o.val) for o in ov]
+    ts = [ty.type_of(v) for v in vals]
+    if any(t_ is None for t_ in ts):
+        raise _U(f"comprehension element of unknown sort: {vals!r}", e)
+    t = ts[0]
+    if any(repr(t_) != repr(t) for t_ in ts):
+        if all(t_ in (ty.Real, ty.Int) for t_ in ts):
+            t = ty.Real
+        elif all(isinstance(t_, ty.SeqT) and t_.elem in (ty.Real, ty.Int) for t_ in ts):
+            # rows of numbers: python ints and floats mix freely; unify to real rows
+            t = ty.SeqT(ty.Real)
+            k_ = z3.Int(ty.fresh_name("ui"))
+            vals = [v if v.elem is ty.Real else ty.SeqV(ty.Real, [z3.Lambda([k_], z3.ToReal(z3.Select(v.arrs[0], k_)))], v.len) for v in vals]
+        else:
+            raise _U(f"comprehension body yields values of different sorts: {ts}", e)
+    # a body that forks (conditional expression) is merged: value = ite(path condition 1, v1, ite(..))
+    comps = ty.pack(t, vals[-1])
+    for o, v in list(zip(ov, vals))[:-1][::-1]:
+        pcond = z3.And(*o.st.decisions[npc1:]) if len(o.st.decisions) > npc1 else z3.BoolVal(True)
+        comps = [z3.If(pcond, c1, c2) for c1, c2 in zip(ty.pack(t, v), comps)]
+    val = ty.unpack(t, comps)
     if not g.ifs:
         arrs = [z3.Lambda([i], c) for c in comps]
         r = ty.SeqV(t, arrs, seq.len)
@@ -156,11 +172,11 @@ def filtered(ex, st, i, n, cond, t, comps, src_arrs=()):
     j, k = z3.Int(ty.fresh_name("fj")), z3.Int(ty.fresh_name("fk"))
     sub = lambda f, x: z3.substitute(f, (i, x))
     st.assume(z3.And(m >= 0, m <= z3.If(n >= 0, n, 0)))
-    st.assume(z3.ForAll([j], z3.Implies(z3.And(j >= 0, j < m),
+    st.assume(ty.FA([j], z3.Implies(z3.And(j >= 0, j < m),
                                         z3.And(idx(j) >= 0, idx(j) < n, sub(cond, idx(j)), pos(idx(j)) == j)),
                         patterns=[idx(j)]))
-    st.assume(z3.ForAll([j, k], z3.Implies(z3.And(j >= 0, j < k, k < m), idx(j) < idx(k)), patterns=[z3.MultiPattern(idx(j), idx(k))]))
-    st.assume(z3.ForAll([k], z3.Implies(z3.And(k >= 0, k < n, sub(cond, k)),
+    st.assume(ty.FA([j, k], z3.Implies(z3.And(j >= 0, j < k, k < m), idx(j) < idx(k)), patterns=[z3.MultiPattern(idx(j), idx(k))]))
+    st.assume(ty.FA([k], z3.Implies(z3.And(k >= 0, k < n, sub(cond, k)),
                                         z3.And(pos(k) >= 0, pos(k) < m, idx(pos(k)) == k)),
                         patterns=[pos(k)] + [z3.Select(a, k) for a in src_arrs if not (z3.is_quantifier(a) and a.is_lambda())]))
     arrs = [z3.Lambda([j], sub(c, idx(j))) for c in comps]
@@ -182,10 +198,10 @@ def set_of(ex, st, v, node):
     wit = z3.Function(ty.fresh_name("setw"), esort, z3.IntSort())
     i = z3.Int(ty.fresh_name("i"))
     x = z3.Const(ty.fresh_name("x"), esort)
-    st.assume(z3.ForAll([i], z3.Implies(z3.And(i >= 0, i < v.len), z3.Select(mem, z3.Select(a, i))), patterns=[z3.Select(a, i)]))
-    st.assume(z3.ForAll([x], z3.Implies(z3.Select(mem, x), z3.And(wit(x) >= 0, wit(x) < v.len, z3.Select(a, wit(x)) == x)),
+    st.assume(ty.FA([i], z3.Implies(z3.And(i >= 0, i < v.len), z3.Select(mem, z3.Select(a, i))), patterns=[z3.Select(a, i)]))
+    st.assume(ty.FA([x], z3.Implies(z3.Select(mem, x), z3.And(wit(x) >= 0, wit(x) < v.len, z3.Select(a, wit(x)) == x)),
                         patterns=[z3.Select(mem, x)]))
-    return _out(SymSet(v.elem, mem), st)
+    return _out(SymSet(v.elem, mem, src=v), st)
 
 
 def sorted_set(ex, st, sset, node, reverse=False):
@@ -197,11 +213,11 @@ def sorted_set(ex, st, sset, node, reverse=False):
     i, j = z3.Int(ty.fresh_name("i")), z3.Int(ty.fresh_name("j"))
     x = z3.Const(ty.fresh_name("x"), esort)
     st.assume(n >= 0)
-    st.assume(z3.ForAll([i], z3.Implies(z3.And(i >= 0, i < n), z3.Select(sset.mem, z3.Select(arr, i))), patterns=[z3.Select(arr, i)]))
+    st.assume(ty.FA([i], z3.Implies(z3.And(i >= 0, i < n), z3.Select(sset.mem, z3.Select(arr, i))), patterns=[z3.Select(arr, i)]))
     less = (lambda p, q: p > q) if reverse else (lambda p, q: p < q)
-    st.assume(z3.ForAll([i, j], z3.Implies(z3.And(i >= 0, i < j, j < n), less(z3.Select(arr, i), z3.Select(arr, j))),
+    st.assume(ty.FA([i, j], z3.Implies(z3.And(i >= 0, i < j, j < n), less(z3.Select(arr, i), z3.Select(arr, j))),
                         patterns=[z3.MultiPattern(z3.Select(arr, i), z3.Select(arr, j))]))
-    st.assume(z3.ForAll([x], z3.Implies(z3.Select(sset.mem, x), z3.And(pos(x) >= 0, pos(x) < n, z3.Select(arr, pos(x)) == x)),
+    st.assume(ty.FA([x], z3.Implies(z3.Select(sset.mem, x), z3.And(pos(x) >= 0, pos(x) < n, z3.Select(arr, pos(x)) == x)),
                         patterns=[z3.Select(sset.mem, x)]))
     return ty.SeqV(sset.elem, [arr], n)
 
@@ -223,7 +239,7 @@ def minmax_seq(ex, st, v, node, is_min):
             w = z3.Int(ty.fresh_name("arg"))
             i = z3.Int(ty.fresh_name("i"))
             s2.assume(z3.And(w >= 0, w < v.len, z3.Select(v.arrs[0], w) == m))
-            s2.assume(z3.ForAll([i], z3.Implies(z3.And(i >= 0, i < v.len),
+            s2.assume(ty.FA([i], z3.Implies(z3.And(i >= 0, i < v.len),
                                                 (m <= z3.Select(v.arrs[0], i)) if is_min else (m >= z3.Select(v.arrs[0], i)))))
             res.extend(_out(m, s2))
         return res
@@ -254,7 +270,7 @@ def minmax_key(ex, st, args, kwargs, node, is_min):
             raise _U("key function forks or raises", node)
         ki, kwv = ty.to_z3num(ko[0].val), ty.to_z3num(kw[0].val)
         s2.assume(z3.And(w >= 0, w < v.len))
-        s2.assume(z3.ForAll([i], z3.Implies(z3.And(i >= 0, i < v.len), (kwv <= ki) if is_min else (kwv >= ki)),
+        s2.assume(ty.FA([i], z3.Implies(z3.And(i >= 0, i < v.len), (kwv <= ki) if is_min else (kwv >= ki)),
                             patterns=[z3.Select(v.arrs[-1], i)]))
         r = v.at(w)
         ex.assume_wf(s2, v.elem, r)
